@@ -87,11 +87,18 @@ def sweep_ticks(rng, tm, hz):
         s.update(range(a, a + 50))
     a = rng.choice(tm.ticks)
     s.update(range(max(0, a - 25), a + 25))
+    for g in rng.sample(range(len(tm.ticks) - 1), min(len(tm.ticks) - 1, 4)) if len(tm.ticks) > 1 else []:
+        mid = (tm.ticks[g] + tm.ticks[g + 1]) // 2  # an implementation may switch reference points inside a segment
+        s.update(range(max(0, mid - 8), mid + 9))
     return sorted(x for x in s if 0 <= x <= hz)
 
 
 def run_map(rec, rng, i):
     res, tempos, style = make_map(rng, i)
+    if rng.random() < 0.25:
+        for k in range(1, len(tempos)):
+            if rng.random() < 0.5:
+                tempos[k][1] = tempos[k - 1][1]  # redundant tempo events (same tempo again)
     tm = model.TempoMap(res, tempos)
     hz = min(tm.horizon(9 * 10**5 * 10**6), tm.ticks[-1] + 10**5)
     ticks = sweep_ticks(rng, tm, hz)
@@ -112,7 +119,7 @@ def run_map(rec, rng, i):
     if md.get("offset"):
         rec.cls("chart_with_nonzero_offset")
     truth = {"resolution": res, "metadata": md, "anchors": anchors, "tempos": tempos,
-             "timesigs": [[0, 4, None]] + [[t, 3, None] for t in ev_ticks[1:4]],
+             "timesigs": [[0, 4, None]] + [[t, 3, None] for t in sorted(set(ev_ticks[1:4] + ev_ticks[-3:]))],
              "globals": [[t, "text", "x"] for t in ev_ticks],
              "tracks": {"GUITAR/EXPERT": {"groups": groups, "phrases": [[t, 1] for t in ev_ticks], "tevents": [[t, "e"] for t in ev_ticks]},
                         "BASS/EASY": {"groups": [dict(g) for g in groups[::2]], "phrases": [], "tevents": [[t, "f"] for t in ev_ticks[::3]]}}}
